@@ -351,6 +351,94 @@ func (c *ctx) flipSweep() {
 	}
 }
 
+// propExchanges: proprietary MAC commands are registered AFTER the process has decoded many frames; an end-to-end exchange of
+// frames that carry them (FOpts and port-0 payload, both directions, both MAC versions) must recover what was sent.
+func (c *ctx) propExchanges() {
+	sizes := map[bool]int{true: 2, false: 3}
+	for _, up := range []bool{true, false} {
+		lorawan.RegisterProprietaryMACCommand(up, lorawan.CID(0xe1), sizes[up])
+	}
+	for i := 0; i < 8; i++ {
+		up, ver, inFOpts := i%2 == 0, (i/2)%2, (i/4)%2 == 0
+		mt := lorawan.UnconfirmedDataDown
+		if up {
+			mt = lorawan.UnconfirmedDataUp
+		}
+		prop := func() lorawan.Payload {
+			return &lorawan.MACCommand{CID: lorawan.CID(0xe1), Payload: &lorawan.ProprietaryMACCommandPayload{Bytes: c.bytesN(sizes[up])}}
+		}
+		std := func() lorawan.Payload {
+			if up {
+				return &lorawan.MACCommand{CID: lorawan.DevStatusAns, Payload: &lorawan.DevStatusAnsPayload{Battery: uint8(c.rnd.Intn(256)), Margin: int8(c.rnd.Intn(64) - 32)}}
+			}
+			return &lorawan.MACCommand{CID: lorawan.DutyCycleReq, Payload: &lorawan.DutyCycleReqPayload{MaxDCycle: uint8(c.rnd.Intn(16))}}
+		}
+		cmds := []lorawan.Payload{prop(), std(), prop()}
+		mp := &lorawan.MACPayload{FHDR: lorawan.FHDR{DevAddr: lorawan.DevAddr{9, 8, 7, byte(i)}, FCnt: uint32(c.rnd.Intn(65536))}}
+		if inFOpts {
+			fp := uint8(1 + c.rnd.Intn(200))
+			mp.FHDR.FOpts = cmds
+			mp.FPort = &fp
+			mp.FRMPayload = []lorawan.Payload{&lorawan.DataPayload{Bytes: c.bytesN(1 + c.rnd.Intn(10))}}
+		} else {
+			fp := uint8(0)
+			mp.FPort = &fp
+			mp.FRMPayload = cmds
+		}
+		tx := lorawan.PHYPayload{MHDR: lorawan.MHDR{MType: mt, Major: lorawan.LoRaWANR1}, MACPayload: mp}
+		ev := M{"ev": "propx", "up": up, "ver": ver, "where": map[bool]string{true: "fopts", false: "port0"}[inFOpts], "sent": phyToVal(&tx)}
+		k1, k2, k3 := c.key(), c.key(), c.key()
+		var rx lorawan.PHYPayload
+		okv := false
+		res, _ := observeFast(func() error {
+			if err := tx.EncryptFRMPayload(k1); err != nil {
+				return err
+			}
+			if ver == 1 && inFOpts {
+				if err := tx.EncryptFOpts(k2); err != nil {
+					return err
+				}
+			}
+			var err error
+			if up {
+				err = tx.SetUplinkDataMIC(lorawan.MACVersion(ver), 0, 1, 2, k3, k3)
+			} else {
+				err = tx.SetDownlinkDataMIC(lorawan.MACVersion(ver), 0, k3)
+			}
+			if err != nil {
+				return err
+			}
+			wire, err := tx.MarshalBinary()
+			if err != nil {
+				return err
+			}
+			if err := rx.UnmarshalBinary(wire); err != nil {
+				return err
+			}
+			if up {
+				okv, err = rx.ValidateUplinkDataMIC(lorawan.MACVersion(ver), 0, 1, 2, k3, k3)
+			} else {
+				okv, err = rx.ValidateDownlinkDataMIC(lorawan.MACVersion(ver), 0, k3)
+			}
+			if err != nil {
+				return err
+			}
+			if ver == 1 && inFOpts {
+				if err := rx.DecryptFOpts(k2); err != nil {
+					return err
+				}
+			} else if err := rx.DecodeFOptsToMACCommands(); err != nil {
+				return err
+			}
+			return rx.DecryptFRMPayload(k1)
+		})
+		ev["err"] = res
+		ev["micok"] = okv
+		ev["recv"] = phyToVal(&rx)
+		c.emit(ev)
+	}
+}
+
 func drvLink(c *ctx) error {
 	switch c.mode {
 	case "cases":
@@ -367,6 +455,7 @@ func drvLink(c *ctx) error {
 		for i := 0; i < c.n; i++ {
 			c.flipSweep()
 		}
+		c.propExchanges() // last: registers proprietary MAC commands in this process, after many frames were decoded
 	default:
 		return fmt.Errorf("link: unknown mode %q", c.mode)
 	}
